@@ -9,7 +9,8 @@ RULE = ("status logic proved over the table of preprocess::Wait() results regene
         "and every k up to the number of read/write/fsync/close calls of a small run, fail the k-th call with ENOSPC / EIO / EPIPE via "
         "the LD_PRELOAD shim and require a non-zero status; for cache / foldfilter / b64filter a scripted child exits with code c or "
         "kills itself with SIGKILL/SIGTERM/SIGSEGV after answering k lines for every k in 0..n, and exits c after answering "
-        "everything; the wrapper must end within the timeout with a non-zero status (resp. exactly c); non-trivial = distinct "
+        "everything; for every tool the output device filling up after L bytes (the crossing write is short, later ones fail with ENOSPC), L over the "
+        "8 KiB buffer multiples +-1, 0, 1, half, total-1 and seeded values, must give a non-zero status; the wrapper must end within the timeout with a non-zero status (resp. exactly c); non-trivial = distinct "
         "(tool, op, k, errno) with the fault fired, or distinct (wrapper, child ending, k)")
 ASSUMPTIONS = ["a fault on descriptor 2 (stderr) is out of scope", "the shim does not affect glibc-internal stdio calls",
                "exit status 0 is judged as 'success'; sanitizer aborts and signals count as non-zero"]
@@ -115,6 +116,46 @@ def run(ctx):
         if not nonzero(st):
             pvlib.report_violation(ctx, f"devfull:{label}", {"argv": [tool] + args, "stdin_hex": hx(stdin)[:20000], "stdout": "/dev/full", "status": st},
                                    summary=f"{label}: every write to stdout failed with ENOSPC (> /dev/full) and the tool {'hung' if st == 'HANG' else 'exited 0'}")
+    # ---- (d) the output device fills up after L bytes: the crossing write is short, later writes fail with ENOSPC
+    full_runs = 0
+    for (label, tool, args, stdin, outs) in toolset.invocations(ctx.tmp, rng, 300):
+        for f in outs:
+            if os.path.exists(f):
+                os.unlink(f)
+        st0, out0, err0 = pvlib.run_tool([ctx.bin(tool)] + args, stdin, env=pvlib.san_env(), timeout=60)
+        total = sum(os.path.getsize(f) for f in outs if os.path.exists(f)) if outs else len(out0)
+        if st0 != 0 or total == 0:
+            continue
+        fd = -1 if outs else 1
+        lims = {0, 1, total // 2, total - 1}
+        for k in range(1, total // 8192 + 1):
+            lims |= {8192 * k - 1, 8192 * k, 8192 * k + 1}
+        lims |= {rng.randrange(total) for _ in range(3 if ctx.tier == "quick" else 40)}
+        for lim in sorted(l for l in lims if 0 <= l < total):
+            rep = os.path.join(ctx.tmp, "rep.txt")
+            if os.path.exists(rep):
+                os.unlink(rep)
+            for f in outs:
+                if os.path.exists(f):
+                    os.unlink(f)
+            fenv = {"PV_FAULT_FULL": f"{fd}:{lim}:{tool}"}
+            e = pvlib.san_env(dict(fenv, LD_PRELOAD=shim, PV_FAULT_REPORT=rep))
+            e["ASAN_OPTIONS"] += ":verify_asan_link_order=0"
+            st, out, err = pvlib.run_tool([ctx.bin(tool)] + args, stdin, env=e, timeout=60)
+            fired = os.path.exists(rep) and any("fired=" in ln for ln in open(rep))
+            if not fired:
+                continue
+            full_runs += 1
+            ctx.count("device-full-after", 1, [(label, lim)])
+            if not nonzero(st):
+                got = sum(os.path.getsize(f) for f in outs if os.path.exists(f)) if outs else len(out)
+                pvlib.report_violation(ctx, f"full:{label}:{lim}", {
+                    "argv": [tool] + args, "stdin_hex": hx(stdin)[:20000], "env": fenv, "status": st, "bytes_accepted": got, "bytes_of_complete_output": total,
+                    "stderr": err.decode(errors="replace")[-300:]},
+                    summary=f"{label}: the output device filled up after {lim} of {total} bytes (short write, then ENOSPC) and the tool "
+                            f"{'hung' if st == 'HANG' else 'exited 0'} with {got} bytes written")
+                break
+    ctx.cov["runs_with_device_full"] = full_runs
 
 
 def search(ctx, broken):
